@@ -154,6 +154,11 @@ func (rm *Manager) getCustomizeHookResponse(parent *unstructured.Unstructured) (
 		if err := rm.customizeHook.Call(request, &response); err != nil {
 			return nil, err
 		}
+		for i, relatedRule := range response.RelatedResourceRules {
+			if relatedRule == nil {
+				return nil, fmt.Errorf("customize hook response: relatedResources[%d] is null", i)
+			}
+		}
 
 		rm.customizeCache.Set(customizeKey{parent.GetUID(), parent.GetGeneration()}, &response)
 		return &response, nil
